@@ -58,7 +58,7 @@ pub struct HCase {
     pub forms: Vec<usize>,
 }
 
-pub const NFORMS: usize = 7;
+pub const NFORMS: usize = 8;
 pub const FORM_NAMES: [&str; NFORMS] = [
     "view records + owned 1-d targets, checked params",
     "reversed-row records view + reversed 1-d target view",
@@ -67,6 +67,7 @@ pub const FORM_NAMES: [&str; NFORMS] = [
     "reversed-feature-axis records view + reversed target view of encoded labels, map_targets() decodes",
     "owned dataset with extra rows of a foreign label, with_labels() filters them (CountedTargets)",
     "column-major owned dataset, UNCHECKED params (ParamGuard blanket impl)",
+    "CountedTargets counted before one record is relabelled in place (as_targets_mut): the cached label list names a class that no record of the batch carries",
 ];
 
 /// Every calling form of `predict` on the same standard-layout query matrix, each converted to a
@@ -233,6 +234,7 @@ pub fn run_h(c: &HCase, out: &mut Out) {
         ("core_nb", _, "gaussian") => core_nb_gaussian(c, out),
         ("core_nb", _, "multinomial") => core_nb_multinomial(c, out),
         ("core_ftrl", _, _) => core_ftrl(c, out),
+        ("km_fit", _, _) => km_fit_then_minibatch(c, out),
         ("ftrl", "f64", _) => run_ftrl_h::<f64>(c, out),
         ("ftrl", "f32", _) => run_ftrl_h::<f32>(c, out),
         ("builder", _, "kmeans") => builder_kmeans(c, out),
@@ -1015,7 +1017,7 @@ fn builder_nb(c: &HCase, out: &mut Out) {
 /// `$extra`: Some(label) adds foreign rows that with_labels has to filter out; `$keep`: the
 /// label list handed to with_labels.
 macro_rules! with_form {
-    ($form:expr, $bx:expr, $by:expr, $poison:expr, $enc:expr, $dec:expr, $extra:expr, $keep:expr, $ds:ident, $unchecked:ident => $body:expr) => {{
+    ($form:expr, $bx:expr, $by:expr, $poison:expr, $enc:expr, $dec:expr, $extra:expr, $keep:expr, $absent:expr, $ds:ident, $unchecked:ident => $body:expr) => {{
         let bx: &Vec<Vec<f64>> = $bx;
         let by = $by;
         let n = bx.len();
@@ -1080,6 +1082,26 @@ macro_rules! with_form {
                 let $unchecked = false;
                 $body
             }
+            7 => {
+                use linfa::dataset::{AsTargetsMut, CountedTargets};
+                let rec = Laid::<f64>::new(bx, 0).backing;
+                let mut y = by.clone();
+                let mut retag = None;
+                if let Some(z) = $absent {
+                    // mis-tag one record of a class that keeps at least one other record
+                    if let Some(i) = (0..n).find(|&i| by.iter().filter(|l| **l == by[i]).count() >= 2) {
+                        y[i] = z;
+                        retag = Some((i, by[i].clone()));
+                    }
+                }
+                let mut d = DatasetBase::new(rec, CountedTargets::new(Array1::from_vec(y)));
+                if let Some((i, l)) = retag {
+                    d.as_targets_mut()[i] = l;
+                }
+                let $ds = &d;
+                let $unchecked = false;
+                $body
+            }
             _ => {
                 let rec = Laid::<f64>::new(bx, 1).backing;
                 let d = DatasetBase::new(rec, Array1::from_vec(by.clone()));
@@ -1127,17 +1149,19 @@ macro_rules! core_nb_runner {
                     Err(p) => Err(format!("panic: {}", p)),
                 }
             }
-            fn step(prev: Option<M>, s: f64, bx: &Vec<Vec<f64>>, by: &Vec<usize>, form: usize) -> Result<M, String> {
+            fn step(prev: Option<M>, s: f64, bx: &Vec<Vec<f64>>, by: &Vec<usize>, form: usize, seen: &[usize]) -> Result<M, String> {
                 let mut keep: Vec<usize> = by.clone();
                 keep.sort();
                 keep.dedup();
-                with_form!(form, bx, by, |_l: &usize| 99usize, |l: &usize| *l + 100, |l: &usize| *l - 100, Some(7usize), &keep, ds, unchecked => fitw(prev, s, ds, unchecked))
+                // a class the model already knows but this batch lacks
+                let absent: Option<usize> = seen.iter().cloned().find(|z| !by.contains(z));
+                with_form!(form, bx, by, |_l: &usize| 99usize, |l: &usize| *l + 100, |l: &usize| *l - 100, Some(7usize), &keep, absent, ds, unchecked => fitw(prev, s, ds, unchecked))
             }
             fn single(s: f64, bx: &Vec<Vec<f64>>, by: &Vec<usize>, form: usize) -> Result<M, String> {
                 let mut keep: Vec<usize> = by.clone();
                 keep.sort();
                 keep.dedup();
-                with_form!(form, bx, by, |_l: &usize| 99usize, |l: &usize| *l + 100, |l: &usize| *l - 100, Some(7usize), &keep, ds, unchecked => fit1(s, ds, unchecked))
+                with_form!(form, bx, by, |_l: &usize| 99usize, |l: &usize| *l + 100, |l: &usize| *l - 100, Some(7usize), &keep, None::<usize>, ds, unchecked => fit1(s, ds, unchecked))
             }
             let gaussian: bool = $gaussian;
             let tag: &str = $tag;
@@ -1156,7 +1180,11 @@ macro_rules! core_nb_runner {
                 if i > 0 {
                     out.nontrivial += 1;
                 }
-                std = match step(std.take(), sm, &bx, &by, 0) {
+                let seen = cy.clone();
+                if c.forms.get(i) == Some(&7) && seen.iter().any(|z| !by.contains(z)) && (0..by.len()).any(|r| by.iter().filter(|l| **l == by[r]).count() >= 2) {
+                    out.bump("harden_batches_whose_label_list_names_an_absent_class", 1);
+                }
+                std = match step(std.take(), sm, &bx, &by, 0, &seen) {
                     Ok(m) => Some(m),
                     Err(e) => {
                         out.viols.push(Violation::new(format!("{}.fit_with.unexpected_failure", tag), format!("batch {}: {}", i, e), case_json(c, json!({"op": "fit_with", "batch": i}))));
@@ -1175,7 +1203,7 @@ macro_rules! core_nb_runner {
                         return;
                     }
                 } else {
-                    lay = match step(lay.take(), sm, &bx, &by, c.forms[i]) {
+                    lay = match step(lay.take(), sm, &bx, &by, c.forms[i], &seen) {
                         Ok(m) => Some(m),
                         Err(e) => {
                             out.viols.push(Violation::new(
@@ -1243,7 +1271,7 @@ fn core_ftrl(c: &HCase, out: &mut Out) {
     }
     fn step(prev: Option<M>, hy: &[f64], bx: &Vec<Vec<f64>>, by: &Vec<bool>, form: usize) -> Result<M, String> {
         let keep = [false, true];
-        with_form!(form, bx, by, |l: &bool| !*l, |l: &bool| if *l { 9usize } else { 2usize }, |x: &usize| *x > 6, None::<bool>, &keep, ds, unchecked => go(prev, hy, ds, unchecked))
+        with_form!(form, bx, by, |l: &bool| !*l, |l: &bool| if *l { 9usize } else { 2usize }, |x: &usize| *x > 6, None::<bool>, &keep, None::<bool>, ds, unchecked => go(prev, hy, ds, unchecked))
     }
     let mut std: Option<M> = None;
     let mut lay: Option<M> = None;
@@ -1280,5 +1308,113 @@ fn core_ftrl(c: &HCase, out: &mut Out) {
             return;
         }
         out.bump("harden_calling_form_steps_compared", 1);
+    }
+}
+
+
+// ------------------------------------------------------------------------------------------------
+// k-means: a history that STARTS with a batch `fit` (several restarts) and continues with
+// mini-batch steps
+// ------------------------------------------------------------------------------------------------
+
+/// hyper = [k, n_runs, seed, tolerance]; batches[0] = data of the batch fit, batches[1..] = the
+/// mini-batches. Oracle: cluster_count after `fit` == sizes of the clusters of the RETURNED
+/// centroids (every row assigned to its nearest returned centroid; a row within 1e-9 of
+/// equidistant makes the case indeterminate), and every following fit_with step == the running
+/// mean recurrence from (returned centroids, those counts) / from the previous state.
+fn km_fit_then_minibatch(c: &HCase, out: &mut Out) {
+    use linfa::traits::Fit;
+    let k = c.hyper[0] as usize;
+    let params = match KMeans::params_with(k, Xoshiro256Plus::seed_from_u64(c.hyper[2] as u64), L2Dist)
+        .n_runs(c.hyper[1] as usize)
+        .tolerance(c.hyper[3])
+        .init_method(KMeansInit::Random)
+        .check()
+    {
+        Ok(p) => p,
+        Err(e) => panic!("invalid parameters {}", e),
+    };
+    let data = &c.batches[0];
+    let ds = DatasetBase::from(batch_arr(data));
+    out.evals += 1;
+    out.transitions += 1;
+    let model = match guarded(|| params.fit(&ds)) {
+        Ok(Ok(m)) => m,
+        Ok(Err(e)) => {
+            out.viols.push(Violation::new("kmeans.fit.unexpected_error", e.to_string(), case_json(c, json!({"op": "fit"}))));
+            return;
+        }
+        Err(p) => {
+            out.viols.push(Violation::new("kmeans.fit.panic", p, case_json(c, json!({"op": "fit"}))));
+            return;
+        }
+    };
+    let st = kstate(&model);
+    let mut want = vec![0.0; k];
+    for x in data {
+        let mut d: Vec<(f64, usize)> = (0..k).map(|cc| (crate::km::rdist(Metric::L2, &st.c[cc], x), cc)).collect();
+        d.sort_by(|a, b| a.0.partial_cmp(&b.0).unwrap());
+        if d.len() > 1 && d[1].0 - d[0].0 <= 1e-9 * (1.0 + d[1].0) {
+            out.indeterminate += 1;
+            return;
+        }
+        want[d[0].1] += 1.0;
+    }
+    if st.cnt != want {
+        out.viols.push(Violation::new(
+            "kmeans.fit.cluster_count_not_sizes_of_returned_clusters",
+            format!("fit with n_runs = {}, seed {}: cluster_count {:?}, but the returned centroids {:?} own {:?} of the {} training rows", c.hyper[1], c.hyper[2], st.cnt, st.c, want, data.len()),
+            case_json(c, json!({"op": "fit"})),
+        ));
+        return;
+    }
+    out.bump("harden_kmeans_fit_counts_checked", 1);
+    let mut prev_state = st;
+    let mut m = Some(model);
+    for (i, b) in c.batches.iter().enumerate().skip(1) {
+        out.evals += 1;
+        out.transitions += 1;
+        out.nontrivial += 1;
+        let dsb = DatasetBase::from(batch_arr(b));
+        let pm = m.take();
+        let (ok, nm) = match guarded(|| params.fit_with(pm, &dsb)) {
+            Ok(Ok(x)) => (true, x),
+            Ok(Err(IncrKMeansError::NotConverged(x))) => (false, x),
+            other => {
+                out.viols.push(Violation::new("kmeans.fit_with.unexpected_failure", format!("step {} after fit: {:?}", i, other.map(|_| ()).map_err(|e| e)), case_json(c, json!({"op": "fit_with", "batch": i}))));
+                return;
+            }
+        };
+        let got = kstate(&nm);
+        match crate::km::ref_step(Metric::L2, &prev_state, b) {
+            None => {
+                out.indeterminate += 1;
+                return;
+            }
+            Some((cands, _)) => {
+                let hit = cands.iter().find(|r| r.st.cnt == got.cnt && r.st.c.iter().flatten().zip(got.c.iter().flatten()).all(|(a, b)| close(*a, *b, 1e-12, 1e-12)));
+                match hit {
+                    None => {
+                        let cnt_ok = cands.iter().any(|r| r.st.cnt == got.cnt);
+                        out.viols.push(Violation::new(
+                            if cnt_ok { "kmeans.fit_with.centroids_not_running_mean_after_fit" } else { "kmeans.fit_with.cluster_count_not_cumulative_after_fit" },
+                            format!("mini-batch step {} after a batch fit: centroids {:?} counts {:?}; own recurrence from the fitted state {:?}: {:?} / {:?}", i, got.c, got.cnt, prev_state, cands[0].st.c, cands[0].st.cnt),
+                            case_json(c, json!({"op": "fit_with", "batch": i})),
+                        ));
+                        return;
+                    }
+                    Some(r) => {
+                        let tol = c.hyper[3];
+                        if (r.shift - tol).abs() > 1e-9 * r.shift.max(tol) && ok != (r.shift < tol) {
+                            out.viols.push(Violation::new("kmeans.fit_with.wrong_verdict_after_fit", format!("step {}: shift {:e}, tolerance {:e}, got {}", i, r.shift, tol, ok), case_json(c, json!({"op": "fit_with", "batch": i}))));
+                            return;
+                        }
+                    }
+                }
+            }
+        }
+        out.bump("harden_kmeans_minibatch_steps_after_fit_checked", 1);
+        prev_state = got;
+        m = Some(nm);
     }
 }
